@@ -170,7 +170,7 @@ func genDialectProgram(r *prng.R, k int, ntuples int) *Prog {
 	}
 	if r.Chance(1, 3) {
 		hasRecover = true
-		top.both("func ¶_rec() {\nif r := recover(); r != nil {\n")
+		top.pc("func ¶_rec() {\nif r := recover(); r != nil {\n", "func ¶_rec() {\nif r := recover(); r != nil {\nck_rt(r)\n")
 		if recGlobal != nil {
 			top.pc(fmt.Sprintf("%s = %s + 1000\n", recGlobal.Name, recGlobal.Name), fmt.Sprintf("%s = ck_add(%s, 1000)\n", recGlobal.Name, recGlobal.Name))
 		}
@@ -318,9 +318,11 @@ func (g *G) genFunc(f *Func, top *sb, hasRecover bool, budget int) {
 		g.noCalls = old
 		s.both("}\n")
 	}
+	g.hasDefer = false
 	if hasRecover && g.r.Chance(1, 3) && !f.Rec {
 		s.both("defer ¶_rec()\n")
 		g.f("func:defer-recover")
+		g.hasDefer = true
 	}
 	g.budget = budget
 	g.depth = 0
